@@ -546,6 +546,16 @@ class Function:
                 cur = ins.ops[0]
             elif ins.op == 'phi' and len(ins.d['incoming']) == 1:
                 cur = ins.d['incoming'][0][0]
+            elif ins.op == 'phi' and depth < 4:
+                # a phi of structurally identical addresses (block duplication by jump threading)
+                subs = [self.ap(v, depth + 1) for v, _b in ins.d['incoming'] if v != cur]
+                keys = set(a.key() for a in subs)
+                if len(keys) == 1 and subs:
+                    a0 = subs[0]
+                    fields = a0.fields + fields
+                    steps = a0.steps + steps
+                    cur = a0.root
+                break
             else:
                 break
         return AccessPath(cur, fields, steps, self)
